@@ -40,6 +40,13 @@ def report(ctx, known, what, witness):
     return ctx.violation(what, witness)
 
 
+def deep_stack():
+    """The reference functions recurse once per byte of the input (lists of 100-300 bytes); with the JVM's default thread
+    stack TLC occasionally died with a StackOverflowError (depending on JIT state).  vlib.tlc drops JAVA_TOOL_OPTIONS but
+    HotSpot also honours _JAVA_OPTIONS, which is set for the TLC children of this check only."""
+    os.environ['_JAVA_OPTIONS'] = (os.environ.get('_JAVA_OPTIONS', '') + ' -Xss64m').strip() if '-Xss' not in os.environ.get('_JAVA_OPTIONS', '') else os.environ['_JAVA_OPTIONS']
+
+
 def _conf_once(ctx, module, cfg, cases, label, chunk, timeout):
     """ucheck.conformance with one retry: under heavy machine load a TLC run occasionally ends before it has evaluated every
     case (seen once: states left on its queue, no evaluation error).  The retry re-evaluates everything, nothing is skipped."""
@@ -214,6 +221,7 @@ def show(case):
 
 
 def run(ctx):
+    deep_stack()
     cfg = 'MC_RangeHdr_thorough.cfg' if ctx.thorough else 'MC_RangeHdr.cfg'
     mc = vlib.tlc_must_pass(ctx, os.path.join(SPEC, 'MC_RangeHdr.tla'), os.path.join(SPEC, cfg), timeout=1200, label='mc-range')
     ctx.cov['spec_law_states'] = mc.distinct
